@@ -59,6 +59,12 @@ def st_operator(draw):
     img = [draw(st.integers(1, 5 if nd == 2 else 3)) for _ in range(nd)]
     nc = draw(st.integers(1, 4))
     cart = draw(st.booleans())
+    if draw(st.sampled_from([False] * 11 + [True])):
+        # one long image axis (far beyond the small grids used elsewhere), non-Cartesian, few coils
+        nd, nc, cart = 2, draw(st.integers(1, 2)), False
+        img = [draw(st.integers(100, 260)), draw(st.integers(1, 4))]
+        if draw(st.booleans()):
+            img = img[::-1]
     coord = None
     if not cart:
         npts = draw(st.integers(4, 24))
@@ -206,7 +212,7 @@ def st_recon(draw):
     return {"app": app, "img": img, "nc": nc, "coord": coord, "mask": mask, "weights": weights,
             "lamda": draw(st.sampled_from([0, 0.25, 1.0] if app == "SenseRecon" else [0.05, 0.25, 1.0])),
             "cbs": draw(st.sampled_from([None, 1, nc])), "consistent": draw(st.booleans()),
-            "seed": draw(A.seeds)}
+            "precond": draw(st.booleans()), "seed": draw(A.seeds)}
 
 
 def check_recon(case):
@@ -252,6 +258,11 @@ def check_recon(case):
         kw = {"max_iter": ITERS[eff] or (npix + 5), "show_pbar": False, "coil_batch_size": case["cbs"]}
         if solver is not None:
             kw["solver"] = solver
+        if eff == "ConjugateGradient" and case.get("precond"):
+            # the documented (rarely used) preconditioner argument P: any Hermitian positive-definite operator is valid
+            dp = np.random.default_rng(case["seed"] + 3).uniform(0.5, 2.0, size=img)
+            kw["P"] = sp.linop.Multiply(img, dp)
+            r.label("preconditioned-CG")
         if eff == "ADMM":
             kw["max_cg_iter"] = npix + 5
         y_in = y.copy()
